@@ -201,7 +201,7 @@ class C19(common.Prop):
     vo_deps = ['theories/Geom/LayoutCheck.vo']
     prop_file = 'theories/Properties/C19.v'
     case_requires = ('From Coq Require Import String.\nFrom Coq Require Import List Ascii ZArith Bool PrimFloat.\n'
-                     'From CGV Require Import Base.PyBase Geom.Num Geom.LayoutCheck.')
+                     'From CGV Require Import Base.PyBase Geom.Num Geom.CisTrans Geom.LayoutCheck.')
     quick_cases = 300
     thorough_cases = 2500
     extended_cases = 400
@@ -213,9 +213,9 @@ class C19(common.Prop):
                  3: 'a coordinate is not finite',
                  4: 'two bonded nodes coincide',
                  5: 'the mean bond length differs from default_bond (relative tolerance 1e-9)',
-                 6: 'rotate_subgraph raised an exception',
-                 7: 'rotate_subgraph produced a non-finite coordinate',
-                 8: 'rotate_subgraph changed a bond length'}
+                 6: 'rotate_subgraph / check_and_fix_cis_trans raised an exception',
+                 7: 'rotate_subgraph / check_and_fix_cis_trans produced a non-finite coordinate',
+                 8: 'rotate_subgraph / check_and_fix_cis_trans changed a bond length'}
 
     def corpus(self, ctx):
         base = {'gseed': 1, 'perm': [], 'npseed': 5}
@@ -235,6 +235,11 @@ class C19(common.Prop):
                 dict(base, kind='layout', shape='ring', n=6, relabel='strings', db=2, edit={'op': 'remove_node', 'pick': 2}),
                 dict(base, kind='layout', shape='fused', n=6, relabel='identity', db=1.5, edit={'op': 'remove_edge', 'pick': 3}),
                 dict(base, kind='layout', shape='molecule', n=0, s=EZ[0], relabel='identity', db=1, edit={'op': 'add_node', 'pick': 4}),
+                dict(base, kind='fix', shape='molecule', n=0, s=EZ[0], relabel='identity', fake=0),
+                dict(base, kind='fix', shape='molecule', n=0, s=EZ[1], relabel='strings', fake=0),
+                dict(base, kind='fix', shape='molecule', n=0, s=EZ[4], relabel='permute', fake=0),
+                dict(base, kind='fix', shape='fused', n=6, relabel='identity', fake=3),
+                dict(base, kind='fix', shape='chain', n=7, relabel='reversed', fake=2),
                 dict(base, kind='rot', shape='chain', n=5, relabel='identity', pick=1, angle=120),
                 dict(base, kind='rot', shape='ring', n=6, relabel='strings', pick=2, angle=240),
                 dict(base, kind='rot', shape='fused', n=6, relabel='identity', pick=3, angle=120)]
@@ -259,10 +264,15 @@ class C19(common.Prop):
                 if rng.random() < 0.3:
                     c['edit'] = {'op': rng.choice(EDITS), 'pick': rng.randrange(1000)}
                 c['db'] = rng.choice(BONDS) if rng.random() < 0.8 else round(rng.uniform(0.01, 50), 3)
-            else:
+            elif rng.random() < 0.5:
                 c['kind'] = 'rot'
                 c['pick'] = rng.randrange(1000)
                 c['angle'] = rng.choice([120, 240, 0, 90, 37.5])
+            else:
+                # check_and_fix_cis_trans called directly: the molecule's own ez_isomer items, or items made up on
+                # random 3-bond paths n1-n2-n3-n4 of the graph (`fake` of them), random points
+                c['kind'] = 'fix'
+                c['fake'] = rng.choice([0, 0, 1, 2, 4])
             out.append(c)
         return out
 
@@ -279,7 +289,78 @@ class C19(common.Prop):
         ids = {x: i for i, x in enumerate(G.nodes)}
         if case['kind'] == 'layout':
             return self._run_layout(case, G, ids)
+        if case['kind'] == 'fix':
+            return self._run_fix(case, G, ids)
         return self._run_rot(case, G, ids)
+
+    def _run_fix(self, case, G, ids):
+        import cgsmiles.graph_layout_utils as gu
+        rng = random.Random(case['gseed'] ^ 0x2545f491)
+        # made-up stereo items on 3-bond paths
+        for _ in range(int(case.get('fake', 0))):
+            paths = []
+            for b, c in G.edges:
+                for a in G[b]:
+                    for d in G[c]:
+                        if len({a, b, c, d}) == 4:
+                            paths.append((a, b, c, d))
+            if not paths:
+                break
+            n1, n2, n3, n4 = rng.choice(sorted(paths, key=lambda t: [ids[x] for x in t]))
+            ty = rng.choice(['cis', 'trans'])
+            G.nodes[n1].setdefault('ez_isomer', []).append((n1, n2, n3, n4, ty))
+            if rng.random() < 0.5:
+                G.nodes[n4].setdefault('ez_isomer', []).append((n4, n3, n2, n1, ty))
+        items = [it for lst in nx.get_node_attributes(G, 'ez_isomer').values() for it in lst]
+        if not items:
+            return {'skip': 'no-ez-item'}
+        try:
+            enc = [[ids[a], ids[b], ids[c], ids[d], {'trans': 0, 'cis': 1}.get(t, 2), bool(a < d)] for a, b, c, d, t in items]
+        except TypeError:
+            return {'skip': 'labels-not-comparable'}
+        # the anchor-target pair of every item must be a bond (what pysmiles/cgsmiles annotate); otherwise outside domain
+        if any(not G.has_edge(b, a) for a, b, c, d, t in items):
+            return {'skip': 'item-off-edge'}
+        points = {x: np.array([rng.uniform(-5, 5), rng.uniform(-5, 5)]) for x in G.nodes}
+        pre = [[ids[k], [float(v[0]), float(v[1])]] for k, v in points.items()]
+        rec = {'comps': [], 'closes': [], 'calls': []}
+        real_nx, real_np, real_rot = gu.nx, gu.np, gu.rotate_subgraph
+
+        def cc(graph):
+            cur = []
+            rec['comps'].append(cur)
+            for c in real_nx.connected_components(graph):
+                cur.append([ids[x] for x in c])
+                yield c
+
+        def isclose(*a, **k):
+            r = real_np.isclose(*a, **k)
+            rec['closes'].append(bool(r))
+            return r
+
+        def rot(graph, anchor, reference, target, points, angle=120):
+            rec['calls'].append([ids[anchor], ids[target], int(angle)])
+            return real_rot(graph, anchor, reference, target, points, angle)
+        gu.nx = Delegate(real_nx, connected_components=cc)
+        gu.np = Delegate(real_np, isclose=isclose)
+        gu.rotate_subgraph = rot
+        out = {'edges': [[ids[u], ids[v]] for u, v in G.edges], 'items': enc, 'exc': 0, 'pre': pre, 'post': [],
+               'comps': [], 'closes': [], 'calls': []}
+        try:
+            res = gu.check_and_fix_cis_trans(G, points)
+        except nx.NetworkXError:
+            out['exc'] = 1
+        except Exception as e:
+            out['exc'], out['exc_name'] = 2, type(e).__name__
+        finally:
+            gu.nx, gu.np, gu.rotate_subgraph = real_nx, real_np, real_rot
+        out['comps'], out['closes'], out['calls'] = rec['comps'], rec['closes'], rec['calls']
+        if out['exc'] == 0:
+            if not isinstance(res, dict) or set(res) != set(ids):
+                out['exc'] = 2
+            else:
+                out['post'] = [[ids[k], [float(v[0]), float(v[1])]] for k, v in res.items()]
+        return out
 
     def _run_history(self, case, G):
         """layout(G); edit G in place; layout(G) again on the SAME object: the second result is judged.
@@ -442,6 +523,15 @@ class C19(common.Prop):
             return '(CLayout %s %s %s %s %s %s %s)' % (zl(impl['nodes']), ed, fhex(impl['db']), lit.nat(impl['exc']),
                                                       pl(impl['pre']), lit.lst([fhex(x) for x in impl['lens']]),
                                                       pl(impl['post']))
+        if case['kind'] == 'fix':
+            ty = {0: 'EzTrans', 1: 'EzCis', 2: 'EzOther'}
+            its = lit.lst(['{| ez1 := %s; ez2 := %s; ez3 := %s; ez4 := %s; ezty := %s; lt14 := %s |}'
+                           % (lit.z(a), lit.z(b), lit.z(c), lit.z(d), ty[t], lit.b(l)) for a, b, c, d, t, l in impl['items']])
+            return '(CFix %s %s %s %s %s %s %s %s)' % (
+                ed, its, lit.lst([lit.b(x) for x in impl['closes']]),
+                lit.lst([lit.lst([zl(c) for c in comps]) for comps in impl['comps']]), lit.nat(impl['exc']),
+                lit.lst(['(%s, %s, %s)' % (lit.z(a), lit.z(t), lit.z(g)) for a, t, g in impl['calls']]),
+                pl(impl['pre']), pl(impl['post']))
         return '(CRot %s %s %s %s %s %s %s)' % (ed, lit.z(impl['anchor']), lit.z(impl['target']),
                                                lit.lst([zl(c) for c in impl['comps']]), lit.nat(impl['exc']),
                                                pl(impl['pre']), pl(impl['post']))
